@@ -352,6 +352,44 @@ func c17(c *ctx) {
 			}}, {"data", func() string { return dg(string(p)) }}}
 		})
 	}
+	// a read loop that recycles its message slice (ms[:0], as example/autobahn does) while the payloads
+	// of earlier rounds are kept elsewhere: later, shorter or equally long messages must not land in them
+	for _, sz := range []int{5, 64, 300, 4096} {
+		for _, client := range []bool{false, true} {
+			sz, client := sz, client
+			var ms []wsutil.Message
+			trace(fmt.Sprintf("readmessage-recycled/%d/%v", sz, client), func(r int) []result {
+				n := sz - r%3 // (never longer than the first one)
+				body := vh.PBytes(r+11, 0, n)
+				// (ReadMessage returns after one top-level frame: a single unfragmented data frame, or - every
+				// third round - a ping whose payload differs from round to round)
+				stream := vh.BuildFrame(2, true, 0, !client, [4]byte{1, 2, 3, 4}, body)
+				if r%3 == 2 {
+					stream = vh.BuildFrame(9, true, 0, !client, [4]byte{5, 6, 7, 8}, body[:n%100])
+				}
+				var err error
+				switch {
+				case client:
+					ms, err = wsutil.ReadServerMessage(bytes.NewReader(stream), ms[:0])
+				case r%2 == 0:
+					ms, err = wsutil.ReadClientMessage(bytes.NewReader(stream), ms[:0])
+				default:
+					ms, err = wsutil.ReadMessage(bytes.NewReader(stream), ws.StateServerSide, ms[:0])
+				}
+				if err != nil {
+					vh.Fatal("c17 readmessage-recycled: %v", err)
+				}
+				kept := append([]wsutil.Message(nil), ms...) // the Message values: their Payload slices are the library's
+				return []result{{"kept", func() string {
+					parts := []string{}
+					for _, m := range kept {
+						parts = append(parts, string(m.Payload))
+					}
+					return dg(parts...)
+				}}}
+			})
+		}
+	}
 	// ---- write side: caller slices untouched, destination bytes independent of the caller's slice
 	writeCase := func(key, op string, sz int, f func(p []byte, dst io.Writer)) {
 		if !vh.Only(key) && !strings.HasPrefix(os.Getenv("VERIF_ONLY"), key+"/fail") {
